@@ -37,7 +37,7 @@ TINY = {"tiny": [0.0, 1e-6, 5e-6], "straddle": [0.0, 9e-6, 1.1e-5]}
 
 
 def bounds(tier):
-    return {"fresh": ["G(3,3,zero)", "G(4,3,zero)", "G(5,2,zero)", "G(3,{0,1e-6,5e-6})",
+    return {"fresh": ["G(3,3,zero)", "G(4,3,zero)", "G(5,2,zero)", "G(4,3,zero) via a non-identity index array", "G(3,{0,1e-6,5e-6})",
                       "G(3,{0,9e-6,1.1e-5})", "P(3,{0,1,2}^2)", "P(4,{0..3})"]
             + (["G(5,3,zero)", "P(4,{0,1,2}^2)", "P(5,{0..3})"] if tier == "thorough" else []),
             "k": "1..n+1", "heights": HEIGHTS, "sequence_depth": 4 if tier == "quick" else 5,
@@ -51,6 +51,9 @@ def plan(tier, seed):
         shards.append(("g", 4, 3, "zero", a, b))
     for a, b in E.chunks(1024, 64):
         shards.append(("g", 5, 2, "zero", a, b))
+    # the same graphs addressed through a non-identity index array into a larger matrix
+    for a, b in E.chunks(729, 100):
+        shards.append(("g", 4, 3, "zero-embedded", a, b))
     for mt in METRICS[tier]:
         for a, b in E.chunks(729, 100):
             shards.append(("feat", "2d", 3, mt, a, b))
@@ -87,10 +90,15 @@ def build(prog):
     import opfython.math.distance as D
     if prog["mode"] == "pre":
         W = np.array(prog["W"], dtype=float)
-        n = len(W)
-        sg = KNNSubgraph(np.zeros((n, 1)), np.zeros(n, dtype=int))
+        I = prog.get("I")
+        n = len(I) if I is not None else len(W)
+        if I is None:
+            sg = KNNSubgraph(np.zeros((n, 1)), np.zeros(n, dtype=int))
+            I = list(range(n))
+        else:
+            sg = KNNSubgraph(np.zeros((n, 1)), np.zeros(n, dtype=int), I=np.array(I, dtype=int))
         args = (None, True, W)
-        Dm = [[float(W[a][b]) for b in range(n)] for a in range(n)]
+        Dm = [[float(W[I[a]][I[b]]) for b in range(n)] for a in range(n)]
     else:
         X = np.array(prog["X"], dtype=float)
         n = len(X)
@@ -235,9 +243,15 @@ def base_programs(shard, seed):
     kind = shard[0]
     if kind == "g":
         _, n, m, tab, a, b = shard
-        table = E.value_table(seed, m, zero=True) if tab == "zero" else TINY[tab]
+        table = E.value_table(seed, m, zero=True) if tab.startswith("zero") else TINY[tab]
         for gi in range(a, b):
-            yield {"mode": "pre", "W": E.matrix_from_ranks(n, E.graph_ranks(n, m, gi), table).tolist()}, n
+            W = E.matrix_from_ranks(n, E.graph_ranks(n, m, gi), table)
+            if tab == "zero-embedded":
+                from mc.props import c01
+                I = c01.embedding(n, seed)
+                yield {"mode": "pre", "W": c01.embed(W, I, table), "I": I}, n
+            else:
+                yield {"mode": "pre", "W": W.tolist()}, n
     else:
         _, lk, n, metric, a, b = shard
         pts = E.lattice(lk, seed, positive=(metric == "canberra"))
